@@ -30,7 +30,8 @@ type ExpElem struct {
 type Expect struct {
 	Elems    []ExpElem
 	Terminal string // close | chardata | comment | procinst | directive | stream-error | restart | unknown-stream-element | decode
-	Cond     string // for stream-error: the condition when the error is well-formed
+	Cond     string // for stream-error: the condition when the error is well-formed ("" when it has none)
+	Text     string // ... and its texts joined with "|"
 	CondOK   bool
 }
 
@@ -82,15 +83,20 @@ func Walk(toks []STok, ws bool) Expect {
 			switch t.Local {
 			case "error":
 				e.Terminal = "stream-error"
-				// well-formed: children are condition elements / text in the stream error name space
-				depth, conds, ok := 0, []string{}, false
+				// a well-formed error: the condition is the last child in the stream
+				// error name space other than <text/> (none: ""); children in other
+				// name spaces are application payload; texts are the <text/> children
+				depth, cond, ok := 0, "", false
+				var texts []string
+				inText := false
 				for _, u := range toks[i+1:] {
 					if u.K == 1 {
-						if depth == 0 {
-							if u.Space != stream.NSError {
-								conds = append(conds, "?foreign")
-							} else if u.Local != "text" {
-								conds = append(conds, u.Local)
+						if depth == 0 && u.Space == stream.NSError {
+							if u.Local == "text" {
+								inText = true
+								texts = append(texts, "")
+							} else {
+								cond = u.Local
 							}
 						}
 						depth++
@@ -100,10 +106,15 @@ func Walk(toks []STok, ws bool) Expect {
 							break
 						}
 						depth--
+						if depth == 0 {
+							inText = false
+						}
+					} else if u.K == 3 && inText && depth == 1 {
+						texts[len(texts)-1] += u.Data
 					}
 				}
-				if ok && len(conds) == 1 && conds[0] != "?foreign" {
-					e.Cond, e.CondOK = conds[0], true
+				if ok {
+					e.Cond, e.Text, e.CondOK = cond, joinBar(texts), true
 				}
 			case "stream":
 				e.Terminal = "restart"
@@ -146,6 +157,17 @@ func Walk(toks []STok, ws bool) Expect {
 	}
 	e.Terminal = "decode"
 	return e
+}
+
+func joinBar(xs []string) string {
+	out := ""
+	for i, x := range xs {
+		if i > 0 {
+			out += "|"
+		}
+		out += x
+	}
+	return out
 }
 
 func tokEq(a, b STok) bool {
@@ -323,6 +345,10 @@ func CheckC08(sp Spec, o Obs) []Finding {
 		case el.Truncated:
 			reason = "truncated"
 		}
+		if reason == "" && sp.OutClosed && (len(v.Wrote) > 0 || (isRequest(v.Start) && !writesReply(v, idOf(v.Start)))) {
+			// nothing can be written any more: the handler's output or the default reply fails
+			reason = "output-closed"
+		}
 		if reason == "" && isRequest(v.Start) {
 			// the default reply needs the sender's address
 			if from, _ := v.Start.AttrVal("from"); from != "" && !writesReply(v, idOf(v.Start)) {
@@ -374,7 +400,13 @@ func CheckC08(sp Spec, o Obs) []Finding {
 		if o.Ret.Code == 0 {
 			add("serve/stream-level-not-fatal", "a stream error was received, Serve returned nil")
 		} else if exp.CondOK && (o.Ret.Code != 3 || o.Ret.Cond != exp.Cond) {
-			add("serve/stream-error-not-returned", "received stream error %q, Serve returned %v", exp.Cond, o.Ret)
+			key := "serve/stream-error-not-returned"
+			if exp.Cond == "" {
+				key = "serve/conditionless-stream-error-not-returned"
+			}
+			add(key, "received stream error with condition %q, Serve returned %v", exp.Cond, o.Ret)
+		} else if exp.CondOK && o.Ret.Text != exp.Text {
+			add("serve/stream-error-text-lost", "received stream error with text %q, Serve returned one with text %q", exp.Text, o.Ret.Text)
 		}
 	default:
 		if o.Ret.Code == 0 {
@@ -620,6 +652,23 @@ func CheckC07(sp Spec, o Obs) []Finding {
 			}
 			return "serve/" + dflt
 		}
+		// the multiplexer never answers a response it has no handler for, whatever its payload looks like
+		if sp.Mode == 1 && isIQName(el.Start) && el.Start.Space == sp.NS && !hasRegistered(sp, el) {
+			if typ := typeOf(el.Start); (typ == "result" || typ == "error") && len(wrote) > 0 {
+				add("mux/reply-to-response", "invocation %d: <iq type=%q id=%q> with no handler registered: the multiplexer wrote %d element(s) (%+v)", j, typ, id, len(wrote), wrote[0][0])
+				continue
+			}
+		}
+		if sp.OutClosed {
+			// nothing can be written: a request cannot be answered, the session must not go on as if it had been
+			if isRequest(el.Start) && hasID && id != "" && j+1 < len(o.Invs) && !writesReply(v, id) {
+				add("serve/unanswered-after-close", "request %q could not be answered (output closed) and serving went on", id)
+			}
+			if len(wire) != 0 {
+				add("serve/output-after-close", "invocation %d: %d element(s) went out after the output stream was closed", j, len(wire))
+			}
+			continue
+		}
 		if !(isRequest(el.Start) && hasID && id != "") {
 			// not a request the rule covers: the session adds nothing
 			if completed && !isRequest(el.Start) && len(wire) != len(wrote) {
@@ -658,7 +707,12 @@ func CheckC07(sp Spec, o Obs) []Finding {
 			}
 			continue
 		}
-		from, _ := v.Start.AttrVal("from")
+		// the reply goes to the sender named on the wire; only the session's own
+		// bare address is presented as empty (C08) and then gets no address
+		from, _ := el.Start.AttrVal("from")
+		if from == o.OwnBare && isStanza(el.Start, sp.NS) {
+			from = ""
+		}
 		wantTo, badFrom := "", false
 		if from != "" {
 			if jj, err := jid.Parse(from); err != nil {
